@@ -4,7 +4,7 @@ C04 / C10 — model of the client negotiation state machine of `QXmppOutgoingCli
 base/QXmppStreamManagement.cpp `StreamAckManager`, and the parts of `QXmppClient` /
 `QXmppRosterManager` that react to `connected`).
 
-The model follows the code that exists (tree after the fixes e0bbad9, fa0779c, 7771c2d, 7a677f2, e363fe9):
+The model follows the code that exists (tree after the fixes e0bbad9, fa0779c, 7771c2d, 7a677f2, e363fe9, c590ae4):
 * `handleStream` starts XEP-0078 authentication on a header without `version` — unless TLS is required and the link is
   not encrypted: then it warns and disconnects;
 * the idle listener rejects every jabber:client element (iq, message, presence) received on an unencrypted link when TLS is
@@ -274,7 +274,8 @@ def csiOnSessionOpened (s : St) (bind2Used : Bool) : R :=
 /-- `openSession`, then the slots of `connected`: roster request, `QXmppClient::connected`, initial presence -/
 def openSession (s : St) : R :=
   let bind2Used := s.bind2Bound
-  let s1 := { s with sessionStarted := true, bind2Bound := false }
+  -- a session without stream management cannot be resumed and replaces any older resumable one (c590ae4)
+  let s1 := { s with sessionStarted := true, bind2Bound := false, canResume := s.smEnabled && s.canResume }
   let o1 := if s1.smResumed then [] else iqDones s1.pendingIq
   let s2 := if s1.smResumed then s1 else { s1 with pendingIq := 0 }
   let r3 := csiOnSessionOpened s2 bind2Used
